@@ -44,6 +44,12 @@ CHECKS = {
         note="Relations over the implementation itself; the harness resets the process-wide compiler cache before each analysis.",
         ref="2 C08",
     ),
+    "C09": dict(
+        technique="property-based testing: Hypothesis directory trees x gitignore pattern lists; differential against `git check-ignore --no-index` plus a direct os model; all path spellings must agree",
+        text="Generated-input search over trees with awkward names, symlinks (file, directory, dangling, to and from outside) and pattern lists derived from the tree's own names (anchors, trailing slash, *, ?, classes, **, escapes, negation, comments, trailing blanks). Membership of every path under every spelling and the enumeration of the code base are compared with git's verdict on the resolved root-relative path combined with an os-level model (existing regular file, recognised extension, under the root). Bounded exploration.",
+        note="Trusts git 2.39 for .gitignore semantics; ASCII names (git matches bytes, pathspec characters). Two known pathspec/git divergences are classified by root cause and reported as KNOWN-FINDING.",
+        ref="2 C09",
+    ),
     "C10": dict(
         technique="property-based testing: Hypothesis code bases x generated exclude-pattern lists; metamorphic relations with/without exclusion, relocation of out-of-root headers, -x vs analysis file",
         text="Generated-input search over code bases whose excluded or out-of-root headers define macros that survivors test. Surviving files must keep their per-line attribution, the setmap difference must be exactly the removed files' lines, moving ../ext headers inside the root must change nothing else, and -x on codebasin / cbi-tree / cbi-cov must equal the analysis-file exclude / the in-process result. Bounded exploration.",
